@@ -1374,6 +1374,15 @@ func (e *Env) evalCall(x *ast.CallExpr) sval {
 			_, isLogicalFn = b.t.Underlying().(*types.Signature)
 		} else if b, ok := fc.logical[id.Name]; ok && b.t != nil {
 			_, isLogicalFn = b.t.Underlying().(*types.Signature)
+		} else if fc.fn != nil {
+			// a captured function-typed variable of a closure whose enclosing function declares it pure
+			for _, fvar := range fc.fn.FreeVars {
+				if fvar.Name() == id.Name && fc.fn.Parent() != nil {
+					if pc := fc.eng.contractFor(fc.fn.Parent()); pc != nil && pc.pureParam(id.Name) {
+						isLogicalFn = true
+					}
+				}
+			}
 		}
 		if (fc.c != nil && fc.c.pureParam(id.Name)) || isLogicalFn {
 			if b, ok := e.resolve(id.Name); ok && b.v.K == KLeaf {
